@@ -260,6 +260,11 @@ func (c *Ctx) replaySemFile(path string, o *SemOpts, sampleEvery int64) *SemStat
 				return nil
 			}
 			id++
+			if !rec.Repl {
+				// how a text ENDS is layout too: in turn a final newline, none, a line comment that the end of input closes,
+				// a block comment, trailing blanks
+				src = strings.TrimSuffix(src, "\n") + []string{"\n", "", " // end", " /* end */", "\n \t", "\n// end\n"}[id%6]
+			}
 			c.Pool.mu.Lock()
 			recs[id] = &rec
 			c.Pool.mu.Unlock()
